@@ -99,11 +99,29 @@ pub fn gen_chunk(rng: &mut Rng, max: usize) -> usize {
 pub fn gen_config(rng: &mut Rng, dom: &Dom) -> Config {
     let kind = *rng.pick(&dom.kinds);
     let f32_ = dom.f32.unwrap_or_else(|| rng.chance(0.5));
-    let exact_idx = if rng.chance(0.3) { Some(rng.below(EXACT_RATIOS.len() as u64) as usize) } else { None };
-    let ratio = match exact_idx {
-        Some(i) => EXACT_RATIOS[i],
+    // exact rationals: the fixed list, or a random small p/q
+    let exact_frac: Option<(usize, usize)> = if rng.chance(0.3) {
+        if rng.chance(0.6) {
+            Some(EXACT_FRACS[rng.below(EXACT_FRACS.len() as u64) as usize])
+        } else {
+            Some((rng.usize_in(1, 12), rng.usize_in(1, 12)))
+        }
+    } else {
+        None
+    };
+    let mut ratio = match exact_frac {
+        Some((num, den)) => (num as f64 / den as f64).clamp(1.0 / 16.0, 16.0),
         None => rng.log_uniform(1.0 / 16.0, 16.0),
     };
+    // near-resonant: a hair off the rational (slow drifts and snapping bugs live there)
+    if exact_frac.is_some() && rng.chance(0.12) {
+        let e = 10f64.powf(-rng.uniform(6.0, 10.0)) * if rng.chance(0.5) { 1.0 } else { -1.0 };
+        ratio = (ratio * (1.0 + e)).clamp(1.0 / 16.0, 16.0);
+    }
+    // two-decimal values (double-rounding coincidences between max/ratio and 1/(ratio/max))
+    if exact_frac.is_none() && rng.chance(0.08) {
+        ratio = ((ratio * 100.0).round() / 100.0).max(0.07);
+    }
     let max_rel = if !dom.ratio_changes {
         if rng.chance(0.5) {
             1.0
@@ -125,11 +143,22 @@ pub fn gen_config(rng: &mut Rng, dom: &Dom) -> Config {
         .min(dom.max_rel_cap)
         .max(1.0)
     };
+    // largest step max_rel / ratio an exact integer (or max_rel a two-decimal value)
+    let max_rel = if dom.ratio_changes && max_rel > 1.0 && rng.chance(0.06) {
+        let k = (max_rel / ratio).round().max(1.0);
+        let m = k * ratio;
+        if m > 1.0 && m <= dom.max_rel_cap.max(16.0) * 1.01 {
+            m
+        } else {
+            (max_rel * 100.0).round() / 100.0
+        }
+    } else {
+        max_rel
+    };
     let mut chunk = gen_chunk(rng, dom.max_chunk);
     // "resonant" chunk sizes: chunk/ratio or chunk*ratio an exact integer (rounding coincidences live there)
-    if let Some(i) = exact_idx {
+    if let Some((num, den)) = exact_frac {
         if rng.chance(0.4) {
-            let (num, den) = EXACT_FRACS[i];
             let base = if rng.chance(0.5) { num } else { den };
             let k = rng.log_usize(1, (dom.max_chunk / base.max(1)).max(1));
             chunk = (base * k).clamp(1, dom.max_chunk.max(1));
@@ -244,6 +273,73 @@ pub fn gen_config(rng: &mut Rng, dom: &Dom) -> Config {
         cpu_mask: 0,
         mask,
         empty_inactive,
+    }
+}
+
+/// "Huge" configurations: frame counts around and above 2^24, where f32 arithmetic on frame counts stops being
+/// exact (the synchronous resamplers and FastFixedOut compute sizes in f32). One channel, small FFT blocks.
+pub fn gen_huge_config(rng: &mut Rng) -> Config {
+    // (FftFixedInOut is left out: a single FFT of 2^25 points needs gigabytes and tens of seconds per call)
+    let kind = *rng.pick(&[Kind::FftIn, Kind::FftOut, Kind::FftIn, Kind::FftOut, Kind::FastOut]);
+    let pairs = [(44100usize, 48000usize), (48000, 44100), (1000, 999), (6000, 48000), (3, 2), (2, 3), (1, 1), (147, 160)];
+    let (rate_in, rate_out) = *rng.pick(&pairs);
+    let g = gcd(rate_in, rate_out);
+    let (min_in, min_out) = (rate_in / g, rate_out / g);
+    let base = 1usize << 24;
+    let mut chunk = match rng.below(4) {
+        0 => base + 1 + rng.below(4000) as usize,
+        1 => base - 64 + rng.below(200) as usize,
+        2 => 0, // filled in below: an exact odd multiple of the FFT block
+        _ => base + (rng.below(1 << 20) as usize) * 2 + 1,
+    };
+    // sub chunks so that one FFT block is around 1000-4000 frames
+    let blk = if kind == Kind::FftOut { min_out } else { min_in };
+    let target = rng.usize_in(1000, 4000).max(blk);
+    let mut sub_chunks = (chunk / target).max(1);
+    if chunk == 0 {
+        // chunk = k * block with block = j * minimal block, k such that the product is an odd number above 2^24
+        // (f32 cannot represent it): sub_chunks = k makes the library resolve exactly that block
+        let j = rng.usize_in(1, 3);
+        let block = blk * j;
+        let mut k = base / block.max(1) + 1 + rng.below(200) as usize;
+        while (k * block) % 2 == 0 && k < base / block.max(1) + 4000 {
+            k += 1;
+        }
+        chunk = k * block;
+        sub_chunks = k;
+    }
+    let mut ratio = 1.0;
+    if kind == Kind::FastOut {
+        // chunk / ratio around 2^24 input frames per call
+        chunk = *rng.pick(&[4096usize, 65536, 16384]);
+        ratio = chunk as f64 / (base as f64 + rng.uniform(-1000.0, 200000.0));
+        sub_chunks = 1;
+    }
+    if kind == Kind::FftInOut {
+        sub_chunks = 1;
+        // FftFixedInOut has no sub chunks: keep the single FFT affordable
+        chunk = base + 1 + rng.below(2000) as usize;
+    }
+    Config {
+        kind,
+        f32: rng.chance(0.7),
+        ratio,
+        rate_in,
+        rate_out,
+        max_rel: if kind == Kind::FastOut { *rng.pick(&[1.0, 1.05]) } else { 1.0 },
+        chunk,
+        sub_chunks,
+        channels: 1,
+        sinc_len: 8,
+        oversampling: 2,
+        interp: 1,
+        window: 0,
+        f_cutoff: 0.95,
+        degree: rng.below(5) as u8,
+        kernel: Kernel::Auto,
+        cpu_mask: 0,
+        mask: None,
+        empty_inactive: false,
     }
 }
 
@@ -464,7 +560,7 @@ pub fn gen_ops_adversarial(rng: &mut Rng, cfg: &Config, mix: &OpMix) -> Vec<Op> 
     let m = cfg.max_rel;
     let inside = 1.0 - 1e-9;
     let (hi, lo) = if mix.ratio_edges { (m, 1.0 / m) } else { (m * inside, (1.0 / m) / inside) };
-    let style = rng.below(6);
+    let style = rng.below(7);
     let mut toggle = rng.chance(0.5);
     while ops.len() < mix.n_ops {
         match style {
@@ -506,6 +602,24 @@ pub fn gen_ops_adversarial(rng: &mut Rng, cfg: &Config, mix: &OpMix) -> Vec<Op> 
                 if can_ratio && rng.chance(0.3) {
                     ops.push(Op::SetRatio { rel: if rng.chance(0.5) { hi } else { lo }, ramp: true, relative_api: false });
                 }
+            }
+            6 => {
+                // pre-roll stress: chunks at exactly the lowest ratio (largest step), then a jump without ramp to the
+                // highest; the chunk size varies so that the low-ratio chunk ends anywhere in its step window
+                if can_ratio {
+                    ops.push(Op::SetRatio { rel: lo, ramp: false, relative_api: rng.chance(0.5) });
+                }
+                for _ in 0..rng.usize_in(1, 3) {
+                    if can_chunk {
+                        ops.push(Op::SetChunk { n: gen_chunk(rng, cfg.chunk) });
+                    }
+                    ops.push(gen_process(rng, mix, false));
+                }
+                if can_ratio {
+                    ops.push(Op::SetRatio { rel: hi, ramp: false, relative_api: rng.chance(0.5) });
+                }
+                ops.push(gen_process(rng, mix, false));
+                ops.push(gen_process(rng, mix, false));
             }
             4 => {
                 // reset mid-ramp
